@@ -4,6 +4,7 @@ package zzvfbe
 import (
 	"bufio"
 	"context"
+	"errors"
 
 	"github.com/aws/aws-sdk-go-v2/service/s3"
 	"github.com/aws/aws-sdk-go-v2/service/s3/types"
@@ -27,15 +28,29 @@ type Recorder struct {
 type Call struct {
 	Method string
 	Args   []any
+	Failed bool // the call returned an error
 }
 
 func (r *Recorder) String() string { return "recorder" }
 func (r *Recorder) Shutdown()      {}
 
-func (r *Recorder) rec(m string, args ...any) {
+func (r *Recorder) rec(m string, args ...any) int {
 	r.Calls = append(r.Calls, Call{Method: m, Args: args})
 	zzvf.Trace("be." + m)
+	return len(r.Calls) - 1
 }
+
+func (r *Recorder) failed(i int, err error) error {
+	if err != nil {
+		r.Calls[i].Failed = true
+	}
+	return err
+}
+
+// FailKinds: 1 = API errors only, 2 = also raw (non-API) errors
+var FailKinds = 1
+
+var errRaw = errors.New("input/output error")
 
 // NoFail lists methods that never fail in the current harness (keeps path counts down).
 var NoFail = map[string]bool{}
@@ -45,8 +60,11 @@ func fail(m string) error {
 	if NoFail[m] {
 		return nil
 	}
-	if zzvf.Choice("be."+m+"$err", 2) == 1 {
+	switch zzvf.Choice("be."+m+"$err", 1+FailKinds) {
+	case 1:
 		return s3err.GetAPIError(s3err.ErrNoSuchKey)
+	case 2:
+		return errRaw // a non-API error (I/O fault and the like)
 	}
 	return nil
 }
@@ -55,705 +73,705 @@ func fail(m string) error {
 var Hooks = map[string]func(r *Recorder, args []any) (any, error){}
 
 func (r *Recorder) ListBuckets(a0 context.Context, a1 s3response.ListBucketsInput) (s3response.ListAllMyBucketsResult, error) {
-	r.rec("ListBuckets", a1)
+	ci := r.rec("ListBuckets", a1)
 	var out s3response.ListAllMyBucketsResult
 	if h := Hooks["ListBuckets"]; h != nil {
 		v, err := h(r, []any{a1})
 		if err != nil {
-			return out, err
+			return out, r.failed(ci, err)
 		}
 		return v.(s3response.ListAllMyBucketsResult), nil
 	}
 	if err := fail("ListBuckets"); err != nil {
-		return out, err
+		return out, r.failed(ci, err)
 	}
 	zzvf.Havoc(&out, "be.ListBuckets")
 	return out, nil
 }
 
 func (r *Recorder) HeadBucket(a0 context.Context, a1 *s3.HeadBucketInput) (*s3.HeadBucketOutput, error) {
-	r.rec("HeadBucket", a1)
+	ci := r.rec("HeadBucket", a1)
 	var out *s3.HeadBucketOutput
 	if h := Hooks["HeadBucket"]; h != nil {
 		v, err := h(r, []any{a1})
 		if err != nil {
-			return out, err
+			return out, r.failed(ci, err)
 		}
 		return v.(*s3.HeadBucketOutput), nil
 	}
 	if err := fail("HeadBucket"); err != nil {
-		return out, err
+		return out, r.failed(ci, err)
 	}
 	zzvf.Havoc(&out, "be.HeadBucket")
 	return out, nil
 }
 
 func (r *Recorder) GetBucketAcl(a0 context.Context, a1 *s3.GetBucketAclInput) ([]byte, error) {
-	r.rec("GetBucketAcl", a1)
+	ci := r.rec("GetBucketAcl", a1)
 	var out []byte
 	if h := Hooks["GetBucketAcl"]; h != nil {
 		v, err := h(r, []any{a1})
 		if err != nil {
-			return out, err
+			return out, r.failed(ci, err)
 		}
 		return v.([]byte), nil
 	}
 	if err := fail("GetBucketAcl"); err != nil {
-		return out, err
+		return out, r.failed(ci, err)
 	}
 	zzvf.Havoc(&out, "be.GetBucketAcl")
 	return out, nil
 }
 
 func (r *Recorder) CreateBucket(a0 context.Context, a1 *s3.CreateBucketInput, a2 []byte) error {
-	r.rec("CreateBucket", a1, a2)
+	ci := r.rec("CreateBucket", a1, a2)
 	if h := Hooks["CreateBucket"]; h != nil {
 		_, err := h(r, []any{a1, a2})
-		return err
+		return r.failed(ci, err)
 	}
-	return fail("CreateBucket")
+	return r.failed(ci, fail("CreateBucket"))
 }
 
 func (r *Recorder) PutBucketAcl(a0 context.Context, a1 string, a2 []byte) error {
-	r.rec("PutBucketAcl", a1, a2)
+	ci := r.rec("PutBucketAcl", a1, a2)
 	if h := Hooks["PutBucketAcl"]; h != nil {
 		_, err := h(r, []any{a1, a2})
-		return err
+		return r.failed(ci, err)
 	}
-	return fail("PutBucketAcl")
+	return r.failed(ci, fail("PutBucketAcl"))
 }
 
 func (r *Recorder) DeleteBucket(a0 context.Context, a1 string) error {
-	r.rec("DeleteBucket", a1)
+	ci := r.rec("DeleteBucket", a1)
 	if h := Hooks["DeleteBucket"]; h != nil {
 		_, err := h(r, []any{a1})
-		return err
+		return r.failed(ci, err)
 	}
-	return fail("DeleteBucket")
+	return r.failed(ci, fail("DeleteBucket"))
 }
 
 func (r *Recorder) PutBucketVersioning(a0 context.Context, a1 string, a2 types.BucketVersioningStatus) error {
-	r.rec("PutBucketVersioning", a1, a2)
+	ci := r.rec("PutBucketVersioning", a1, a2)
 	if h := Hooks["PutBucketVersioning"]; h != nil {
 		_, err := h(r, []any{a1, a2})
-		return err
+		return r.failed(ci, err)
 	}
-	return fail("PutBucketVersioning")
+	return r.failed(ci, fail("PutBucketVersioning"))
 }
 
 func (r *Recorder) GetBucketVersioning(a0 context.Context, a1 string) (s3response.GetBucketVersioningOutput, error) {
-	r.rec("GetBucketVersioning", a1)
+	ci := r.rec("GetBucketVersioning", a1)
 	var out s3response.GetBucketVersioningOutput
 	if h := Hooks["GetBucketVersioning"]; h != nil {
 		v, err := h(r, []any{a1})
 		if err != nil {
-			return out, err
+			return out, r.failed(ci, err)
 		}
 		return v.(s3response.GetBucketVersioningOutput), nil
 	}
 	if err := fail("GetBucketVersioning"); err != nil {
-		return out, err
+		return out, r.failed(ci, err)
 	}
 	zzvf.Havoc(&out, "be.GetBucketVersioning")
 	return out, nil
 }
 
 func (r *Recorder) PutBucketPolicy(a0 context.Context, a1 string, a2 []byte) error {
-	r.rec("PutBucketPolicy", a1, a2)
+	ci := r.rec("PutBucketPolicy", a1, a2)
 	if h := Hooks["PutBucketPolicy"]; h != nil {
 		_, err := h(r, []any{a1, a2})
-		return err
+		return r.failed(ci, err)
 	}
-	return fail("PutBucketPolicy")
+	return r.failed(ci, fail("PutBucketPolicy"))
 }
 
 func (r *Recorder) GetBucketPolicy(a0 context.Context, a1 string) ([]byte, error) {
-	r.rec("GetBucketPolicy", a1)
+	ci := r.rec("GetBucketPolicy", a1)
 	var out []byte
 	if h := Hooks["GetBucketPolicy"]; h != nil {
 		v, err := h(r, []any{a1})
 		if err != nil {
-			return out, err
+			return out, r.failed(ci, err)
 		}
 		return v.([]byte), nil
 	}
 	if err := fail("GetBucketPolicy"); err != nil {
-		return out, err
+		return out, r.failed(ci, err)
 	}
 	zzvf.Havoc(&out, "be.GetBucketPolicy")
 	return out, nil
 }
 
 func (r *Recorder) DeleteBucketPolicy(a0 context.Context, a1 string) error {
-	r.rec("DeleteBucketPolicy", a1)
+	ci := r.rec("DeleteBucketPolicy", a1)
 	if h := Hooks["DeleteBucketPolicy"]; h != nil {
 		_, err := h(r, []any{a1})
-		return err
+		return r.failed(ci, err)
 	}
-	return fail("DeleteBucketPolicy")
+	return r.failed(ci, fail("DeleteBucketPolicy"))
 }
 
 func (r *Recorder) PutBucketOwnershipControls(a0 context.Context, a1 string, a2 types.ObjectOwnership) error {
-	r.rec("PutBucketOwnershipControls", a1, a2)
+	ci := r.rec("PutBucketOwnershipControls", a1, a2)
 	if h := Hooks["PutBucketOwnershipControls"]; h != nil {
 		_, err := h(r, []any{a1, a2})
-		return err
+		return r.failed(ci, err)
 	}
-	return fail("PutBucketOwnershipControls")
+	return r.failed(ci, fail("PutBucketOwnershipControls"))
 }
 
 func (r *Recorder) GetBucketOwnershipControls(a0 context.Context, a1 string) (types.ObjectOwnership, error) {
-	r.rec("GetBucketOwnershipControls", a1)
+	ci := r.rec("GetBucketOwnershipControls", a1)
 	var out types.ObjectOwnership
 	if h := Hooks["GetBucketOwnershipControls"]; h != nil {
 		v, err := h(r, []any{a1})
 		if err != nil {
-			return out, err
+			return out, r.failed(ci, err)
 		}
 		return v.(types.ObjectOwnership), nil
 	}
 	if err := fail("GetBucketOwnershipControls"); err != nil {
-		return out, err
+		return out, r.failed(ci, err)
 	}
 	zzvf.Havoc(&out, "be.GetBucketOwnershipControls")
 	return out, nil
 }
 
 func (r *Recorder) DeleteBucketOwnershipControls(a0 context.Context, a1 string) error {
-	r.rec("DeleteBucketOwnershipControls", a1)
+	ci := r.rec("DeleteBucketOwnershipControls", a1)
 	if h := Hooks["DeleteBucketOwnershipControls"]; h != nil {
 		_, err := h(r, []any{a1})
-		return err
+		return r.failed(ci, err)
 	}
-	return fail("DeleteBucketOwnershipControls")
+	return r.failed(ci, fail("DeleteBucketOwnershipControls"))
 }
 
 func (r *Recorder) PutBucketCors(a0 context.Context, a1 []byte) error {
-	r.rec("PutBucketCors", a1)
+	ci := r.rec("PutBucketCors", a1)
 	if h := Hooks["PutBucketCors"]; h != nil {
 		_, err := h(r, []any{a1})
-		return err
+		return r.failed(ci, err)
 	}
-	return fail("PutBucketCors")
+	return r.failed(ci, fail("PutBucketCors"))
 }
 
 func (r *Recorder) GetBucketCors(a0 context.Context, a1 string) ([]byte, error) {
-	r.rec("GetBucketCors", a1)
+	ci := r.rec("GetBucketCors", a1)
 	var out []byte
 	if h := Hooks["GetBucketCors"]; h != nil {
 		v, err := h(r, []any{a1})
 		if err != nil {
-			return out, err
+			return out, r.failed(ci, err)
 		}
 		return v.([]byte), nil
 	}
 	if err := fail("GetBucketCors"); err != nil {
-		return out, err
+		return out, r.failed(ci, err)
 	}
 	zzvf.Havoc(&out, "be.GetBucketCors")
 	return out, nil
 }
 
 func (r *Recorder) DeleteBucketCors(a0 context.Context, a1 string) error {
-	r.rec("DeleteBucketCors", a1)
+	ci := r.rec("DeleteBucketCors", a1)
 	if h := Hooks["DeleteBucketCors"]; h != nil {
 		_, err := h(r, []any{a1})
-		return err
+		return r.failed(ci, err)
 	}
-	return fail("DeleteBucketCors")
+	return r.failed(ci, fail("DeleteBucketCors"))
 }
 
 func (r *Recorder) CreateMultipartUpload(a0 context.Context, a1 s3response.CreateMultipartUploadInput) (s3response.InitiateMultipartUploadResult, error) {
-	r.rec("CreateMultipartUpload", a1)
+	ci := r.rec("CreateMultipartUpload", a1)
 	var out s3response.InitiateMultipartUploadResult
 	if h := Hooks["CreateMultipartUpload"]; h != nil {
 		v, err := h(r, []any{a1})
 		if err != nil {
-			return out, err
+			return out, r.failed(ci, err)
 		}
 		return v.(s3response.InitiateMultipartUploadResult), nil
 	}
 	if err := fail("CreateMultipartUpload"); err != nil {
-		return out, err
+		return out, r.failed(ci, err)
 	}
 	zzvf.Havoc(&out, "be.CreateMultipartUpload")
 	return out, nil
 }
 
 func (r *Recorder) CompleteMultipartUpload(a0 context.Context, a1 *s3.CompleteMultipartUploadInput) (*s3.CompleteMultipartUploadOutput, error) {
-	r.rec("CompleteMultipartUpload", a1)
+	ci := r.rec("CompleteMultipartUpload", a1)
 	var out *s3.CompleteMultipartUploadOutput
 	if h := Hooks["CompleteMultipartUpload"]; h != nil {
 		v, err := h(r, []any{a1})
 		if err != nil {
-			return out, err
+			return out, r.failed(ci, err)
 		}
 		return v.(*s3.CompleteMultipartUploadOutput), nil
 	}
 	if err := fail("CompleteMultipartUpload"); err != nil {
-		return out, err
+		return out, r.failed(ci, err)
 	}
 	zzvf.Havoc(&out, "be.CompleteMultipartUpload")
 	return out, nil
 }
 
 func (r *Recorder) AbortMultipartUpload(a0 context.Context, a1 *s3.AbortMultipartUploadInput) error {
-	r.rec("AbortMultipartUpload", a1)
+	ci := r.rec("AbortMultipartUpload", a1)
 	if h := Hooks["AbortMultipartUpload"]; h != nil {
 		_, err := h(r, []any{a1})
-		return err
+		return r.failed(ci, err)
 	}
-	return fail("AbortMultipartUpload")
+	return r.failed(ci, fail("AbortMultipartUpload"))
 }
 
 func (r *Recorder) ListMultipartUploads(a0 context.Context, a1 *s3.ListMultipartUploadsInput) (s3response.ListMultipartUploadsResult, error) {
-	r.rec("ListMultipartUploads", a1)
+	ci := r.rec("ListMultipartUploads", a1)
 	var out s3response.ListMultipartUploadsResult
 	if h := Hooks["ListMultipartUploads"]; h != nil {
 		v, err := h(r, []any{a1})
 		if err != nil {
-			return out, err
+			return out, r.failed(ci, err)
 		}
 		return v.(s3response.ListMultipartUploadsResult), nil
 	}
 	if err := fail("ListMultipartUploads"); err != nil {
-		return out, err
+		return out, r.failed(ci, err)
 	}
 	zzvf.Havoc(&out, "be.ListMultipartUploads")
 	return out, nil
 }
 
 func (r *Recorder) ListParts(a0 context.Context, a1 *s3.ListPartsInput) (s3response.ListPartsResult, error) {
-	r.rec("ListParts", a1)
+	ci := r.rec("ListParts", a1)
 	var out s3response.ListPartsResult
 	if h := Hooks["ListParts"]; h != nil {
 		v, err := h(r, []any{a1})
 		if err != nil {
-			return out, err
+			return out, r.failed(ci, err)
 		}
 		return v.(s3response.ListPartsResult), nil
 	}
 	if err := fail("ListParts"); err != nil {
-		return out, err
+		return out, r.failed(ci, err)
 	}
 	zzvf.Havoc(&out, "be.ListParts")
 	return out, nil
 }
 
 func (r *Recorder) UploadPart(a0 context.Context, a1 *s3.UploadPartInput) (*s3.UploadPartOutput, error) {
-	r.rec("UploadPart", a1)
+	ci := r.rec("UploadPart", a1)
 	var out *s3.UploadPartOutput
 	if h := Hooks["UploadPart"]; h != nil {
 		v, err := h(r, []any{a1})
 		if err != nil {
-			return out, err
+			return out, r.failed(ci, err)
 		}
 		return v.(*s3.UploadPartOutput), nil
 	}
 	if err := fail("UploadPart"); err != nil {
-		return out, err
+		return out, r.failed(ci, err)
 	}
 	zzvf.Havoc(&out, "be.UploadPart")
 	return out, nil
 }
 
 func (r *Recorder) UploadPartCopy(a0 context.Context, a1 *s3.UploadPartCopyInput) (s3response.CopyPartResult, error) {
-	r.rec("UploadPartCopy", a1)
+	ci := r.rec("UploadPartCopy", a1)
 	var out s3response.CopyPartResult
 	if h := Hooks["UploadPartCopy"]; h != nil {
 		v, err := h(r, []any{a1})
 		if err != nil {
-			return out, err
+			return out, r.failed(ci, err)
 		}
 		return v.(s3response.CopyPartResult), nil
 	}
 	if err := fail("UploadPartCopy"); err != nil {
-		return out, err
+		return out, r.failed(ci, err)
 	}
 	zzvf.Havoc(&out, "be.UploadPartCopy")
 	return out, nil
 }
 
 func (r *Recorder) PutObject(a0 context.Context, a1 s3response.PutObjectInput) (s3response.PutObjectOutput, error) {
-	r.rec("PutObject", a1)
+	ci := r.rec("PutObject", a1)
 	var out s3response.PutObjectOutput
 	if h := Hooks["PutObject"]; h != nil {
 		v, err := h(r, []any{a1})
 		if err != nil {
-			return out, err
+			return out, r.failed(ci, err)
 		}
 		return v.(s3response.PutObjectOutput), nil
 	}
 	if err := fail("PutObject"); err != nil {
-		return out, err
+		return out, r.failed(ci, err)
 	}
 	zzvf.Havoc(&out, "be.PutObject")
 	return out, nil
 }
 
 func (r *Recorder) HeadObject(a0 context.Context, a1 *s3.HeadObjectInput) (*s3.HeadObjectOutput, error) {
-	r.rec("HeadObject", a1)
+	ci := r.rec("HeadObject", a1)
 	var out *s3.HeadObjectOutput
 	if h := Hooks["HeadObject"]; h != nil {
 		v, err := h(r, []any{a1})
 		if err != nil {
-			return out, err
+			return out, r.failed(ci, err)
 		}
 		return v.(*s3.HeadObjectOutput), nil
 	}
 	if err := fail("HeadObject"); err != nil {
-		return out, err
+		return out, r.failed(ci, err)
 	}
 	zzvf.Havoc(&out, "be.HeadObject")
 	return out, nil
 }
 
 func (r *Recorder) GetObject(a0 context.Context, a1 *s3.GetObjectInput) (*s3.GetObjectOutput, error) {
-	r.rec("GetObject", a1)
+	ci := r.rec("GetObject", a1)
 	var out *s3.GetObjectOutput
 	if h := Hooks["GetObject"]; h != nil {
 		v, err := h(r, []any{a1})
 		if err != nil {
-			return out, err
+			return out, r.failed(ci, err)
 		}
 		return v.(*s3.GetObjectOutput), nil
 	}
 	if err := fail("GetObject"); err != nil {
-		return out, err
+		return out, r.failed(ci, err)
 	}
 	zzvf.Havoc(&out, "be.GetObject")
 	return out, nil
 }
 
 func (r *Recorder) GetObjectAcl(a0 context.Context, a1 *s3.GetObjectAclInput) (*s3.GetObjectAclOutput, error) {
-	r.rec("GetObjectAcl", a1)
+	ci := r.rec("GetObjectAcl", a1)
 	var out *s3.GetObjectAclOutput
 	if h := Hooks["GetObjectAcl"]; h != nil {
 		v, err := h(r, []any{a1})
 		if err != nil {
-			return out, err
+			return out, r.failed(ci, err)
 		}
 		return v.(*s3.GetObjectAclOutput), nil
 	}
 	if err := fail("GetObjectAcl"); err != nil {
-		return out, err
+		return out, r.failed(ci, err)
 	}
 	zzvf.Havoc(&out, "be.GetObjectAcl")
 	return out, nil
 }
 
 func (r *Recorder) GetObjectAttributes(a0 context.Context, a1 *s3.GetObjectAttributesInput) (s3response.GetObjectAttributesResponse, error) {
-	r.rec("GetObjectAttributes", a1)
+	ci := r.rec("GetObjectAttributes", a1)
 	var out s3response.GetObjectAttributesResponse
 	if h := Hooks["GetObjectAttributes"]; h != nil {
 		v, err := h(r, []any{a1})
 		if err != nil {
-			return out, err
+			return out, r.failed(ci, err)
 		}
 		return v.(s3response.GetObjectAttributesResponse), nil
 	}
 	if err := fail("GetObjectAttributes"); err != nil {
-		return out, err
+		return out, r.failed(ci, err)
 	}
 	zzvf.Havoc(&out, "be.GetObjectAttributes")
 	return out, nil
 }
 
 func (r *Recorder) CopyObject(a0 context.Context, a1 s3response.CopyObjectInput) (*s3.CopyObjectOutput, error) {
-	r.rec("CopyObject", a1)
+	ci := r.rec("CopyObject", a1)
 	var out *s3.CopyObjectOutput
 	if h := Hooks["CopyObject"]; h != nil {
 		v, err := h(r, []any{a1})
 		if err != nil {
-			return out, err
+			return out, r.failed(ci, err)
 		}
 		return v.(*s3.CopyObjectOutput), nil
 	}
 	if err := fail("CopyObject"); err != nil {
-		return out, err
+		return out, r.failed(ci, err)
 	}
 	zzvf.Havoc(&out, "be.CopyObject")
 	return out, nil
 }
 
 func (r *Recorder) ListObjects(a0 context.Context, a1 *s3.ListObjectsInput) (s3response.ListObjectsResult, error) {
-	r.rec("ListObjects", a1)
+	ci := r.rec("ListObjects", a1)
 	var out s3response.ListObjectsResult
 	if h := Hooks["ListObjects"]; h != nil {
 		v, err := h(r, []any{a1})
 		if err != nil {
-			return out, err
+			return out, r.failed(ci, err)
 		}
 		return v.(s3response.ListObjectsResult), nil
 	}
 	if err := fail("ListObjects"); err != nil {
-		return out, err
+		return out, r.failed(ci, err)
 	}
 	zzvf.Havoc(&out, "be.ListObjects")
 	return out, nil
 }
 
 func (r *Recorder) ListObjectsV2(a0 context.Context, a1 *s3.ListObjectsV2Input) (s3response.ListObjectsV2Result, error) {
-	r.rec("ListObjectsV2", a1)
+	ci := r.rec("ListObjectsV2", a1)
 	var out s3response.ListObjectsV2Result
 	if h := Hooks["ListObjectsV2"]; h != nil {
 		v, err := h(r, []any{a1})
 		if err != nil {
-			return out, err
+			return out, r.failed(ci, err)
 		}
 		return v.(s3response.ListObjectsV2Result), nil
 	}
 	if err := fail("ListObjectsV2"); err != nil {
-		return out, err
+		return out, r.failed(ci, err)
 	}
 	zzvf.Havoc(&out, "be.ListObjectsV2")
 	return out, nil
 }
 
 func (r *Recorder) DeleteObject(a0 context.Context, a1 *s3.DeleteObjectInput) (*s3.DeleteObjectOutput, error) {
-	r.rec("DeleteObject", a1)
+	ci := r.rec("DeleteObject", a1)
 	var out *s3.DeleteObjectOutput
 	if h := Hooks["DeleteObject"]; h != nil {
 		v, err := h(r, []any{a1})
 		if err != nil {
-			return out, err
+			return out, r.failed(ci, err)
 		}
 		return v.(*s3.DeleteObjectOutput), nil
 	}
 	if err := fail("DeleteObject"); err != nil {
-		return out, err
+		return out, r.failed(ci, err)
 	}
 	zzvf.Havoc(&out, "be.DeleteObject")
 	return out, nil
 }
 
 func (r *Recorder) DeleteObjects(a0 context.Context, a1 *s3.DeleteObjectsInput) (s3response.DeleteResult, error) {
-	r.rec("DeleteObjects", a1)
+	ci := r.rec("DeleteObjects", a1)
 	var out s3response.DeleteResult
 	if h := Hooks["DeleteObjects"]; h != nil {
 		v, err := h(r, []any{a1})
 		if err != nil {
-			return out, err
+			return out, r.failed(ci, err)
 		}
 		return v.(s3response.DeleteResult), nil
 	}
 	if err := fail("DeleteObjects"); err != nil {
-		return out, err
+		return out, r.failed(ci, err)
 	}
 	zzvf.Havoc(&out, "be.DeleteObjects")
 	return out, nil
 }
 
 func (r *Recorder) PutObjectAcl(a0 context.Context, a1 *s3.PutObjectAclInput) error {
-	r.rec("PutObjectAcl", a1)
+	ci := r.rec("PutObjectAcl", a1)
 	if h := Hooks["PutObjectAcl"]; h != nil {
 		_, err := h(r, []any{a1})
-		return err
+		return r.failed(ci, err)
 	}
-	return fail("PutObjectAcl")
+	return r.failed(ci, fail("PutObjectAcl"))
 }
 
 func (r *Recorder) ListObjectVersions(a0 context.Context, a1 *s3.ListObjectVersionsInput) (s3response.ListVersionsResult, error) {
-	r.rec("ListObjectVersions", a1)
+	ci := r.rec("ListObjectVersions", a1)
 	var out s3response.ListVersionsResult
 	if h := Hooks["ListObjectVersions"]; h != nil {
 		v, err := h(r, []any{a1})
 		if err != nil {
-			return out, err
+			return out, r.failed(ci, err)
 		}
 		return v.(s3response.ListVersionsResult), nil
 	}
 	if err := fail("ListObjectVersions"); err != nil {
-		return out, err
+		return out, r.failed(ci, err)
 	}
 	zzvf.Havoc(&out, "be.ListObjectVersions")
 	return out, nil
 }
 
 func (r *Recorder) RestoreObject(a0 context.Context, a1 *s3.RestoreObjectInput) error {
-	r.rec("RestoreObject", a1)
+	ci := r.rec("RestoreObject", a1)
 	if h := Hooks["RestoreObject"]; h != nil {
 		_, err := h(r, []any{a1})
-		return err
+		return r.failed(ci, err)
 	}
-	return fail("RestoreObject")
+	return r.failed(ci, fail("RestoreObject"))
 }
 
 func (r *Recorder) GetBucketTagging(a0 context.Context, a1 string) (map[string]string, error) {
-	r.rec("GetBucketTagging", a1)
+	ci := r.rec("GetBucketTagging", a1)
 	var out map[string]string
 	if h := Hooks["GetBucketTagging"]; h != nil {
 		v, err := h(r, []any{a1})
 		if err != nil {
-			return out, err
+			return out, r.failed(ci, err)
 		}
 		return v.(map[string]string), nil
 	}
 	if err := fail("GetBucketTagging"); err != nil {
-		return out, err
+		return out, r.failed(ci, err)
 	}
 	zzvf.Havoc(&out, "be.GetBucketTagging")
 	return out, nil
 }
 
 func (r *Recorder) PutBucketTagging(a0 context.Context, a1 string, a2 map[string]string) error {
-	r.rec("PutBucketTagging", a1, a2)
+	ci := r.rec("PutBucketTagging", a1, a2)
 	if h := Hooks["PutBucketTagging"]; h != nil {
 		_, err := h(r, []any{a1, a2})
-		return err
+		return r.failed(ci, err)
 	}
-	return fail("PutBucketTagging")
+	return r.failed(ci, fail("PutBucketTagging"))
 }
 
 func (r *Recorder) DeleteBucketTagging(a0 context.Context, a1 string) error {
-	r.rec("DeleteBucketTagging", a1)
+	ci := r.rec("DeleteBucketTagging", a1)
 	if h := Hooks["DeleteBucketTagging"]; h != nil {
 		_, err := h(r, []any{a1})
-		return err
+		return r.failed(ci, err)
 	}
-	return fail("DeleteBucketTagging")
+	return r.failed(ci, fail("DeleteBucketTagging"))
 }
 
 func (r *Recorder) GetObjectTagging(a0 context.Context, a1 string, a2 string) (map[string]string, error) {
-	r.rec("GetObjectTagging", a1, a2)
+	ci := r.rec("GetObjectTagging", a1, a2)
 	var out map[string]string
 	if h := Hooks["GetObjectTagging"]; h != nil {
 		v, err := h(r, []any{a1, a2})
 		if err != nil {
-			return out, err
+			return out, r.failed(ci, err)
 		}
 		return v.(map[string]string), nil
 	}
 	if err := fail("GetObjectTagging"); err != nil {
-		return out, err
+		return out, r.failed(ci, err)
 	}
 	zzvf.Havoc(&out, "be.GetObjectTagging")
 	return out, nil
 }
 
 func (r *Recorder) PutObjectTagging(a0 context.Context, a1 string, a2 string, a3 map[string]string) error {
-	r.rec("PutObjectTagging", a1, a2, a3)
+	ci := r.rec("PutObjectTagging", a1, a2, a3)
 	if h := Hooks["PutObjectTagging"]; h != nil {
 		_, err := h(r, []any{a1, a2, a3})
-		return err
+		return r.failed(ci, err)
 	}
-	return fail("PutObjectTagging")
+	return r.failed(ci, fail("PutObjectTagging"))
 }
 
 func (r *Recorder) DeleteObjectTagging(a0 context.Context, a1 string, a2 string) error {
-	r.rec("DeleteObjectTagging", a1, a2)
+	ci := r.rec("DeleteObjectTagging", a1, a2)
 	if h := Hooks["DeleteObjectTagging"]; h != nil {
 		_, err := h(r, []any{a1, a2})
-		return err
+		return r.failed(ci, err)
 	}
-	return fail("DeleteObjectTagging")
+	return r.failed(ci, fail("DeleteObjectTagging"))
 }
 
 func (r *Recorder) PutObjectLockConfiguration(a0 context.Context, a1 string, a2 []byte) error {
-	r.rec("PutObjectLockConfiguration", a1, a2)
+	ci := r.rec("PutObjectLockConfiguration", a1, a2)
 	if h := Hooks["PutObjectLockConfiguration"]; h != nil {
 		_, err := h(r, []any{a1, a2})
-		return err
+		return r.failed(ci, err)
 	}
-	return fail("PutObjectLockConfiguration")
+	return r.failed(ci, fail("PutObjectLockConfiguration"))
 }
 
 func (r *Recorder) GetObjectLockConfiguration(a0 context.Context, a1 string) ([]byte, error) {
-	r.rec("GetObjectLockConfiguration", a1)
+	ci := r.rec("GetObjectLockConfiguration", a1)
 	var out []byte
 	if h := Hooks["GetObjectLockConfiguration"]; h != nil {
 		v, err := h(r, []any{a1})
 		if err != nil {
-			return out, err
+			return out, r.failed(ci, err)
 		}
 		return v.([]byte), nil
 	}
 	if err := fail("GetObjectLockConfiguration"); err != nil {
-		return out, err
+		return out, r.failed(ci, err)
 	}
 	zzvf.Havoc(&out, "be.GetObjectLockConfiguration")
 	return out, nil
 }
 
 func (r *Recorder) PutObjectRetention(a0 context.Context, a1 string, a2 string, a3 string, a4 bool, a5 []byte) error {
-	r.rec("PutObjectRetention", a1, a2, a3, a4, a5)
+	ci := r.rec("PutObjectRetention", a1, a2, a3, a4, a5)
 	if h := Hooks["PutObjectRetention"]; h != nil {
 		_, err := h(r, []any{a1, a2, a3, a4, a5})
-		return err
+		return r.failed(ci, err)
 	}
-	return fail("PutObjectRetention")
+	return r.failed(ci, fail("PutObjectRetention"))
 }
 
 func (r *Recorder) GetObjectRetention(a0 context.Context, a1 string, a2 string, a3 string) ([]byte, error) {
-	r.rec("GetObjectRetention", a1, a2, a3)
+	ci := r.rec("GetObjectRetention", a1, a2, a3)
 	var out []byte
 	if h := Hooks["GetObjectRetention"]; h != nil {
 		v, err := h(r, []any{a1, a2, a3})
 		if err != nil {
-			return out, err
+			return out, r.failed(ci, err)
 		}
 		return v.([]byte), nil
 	}
 	if err := fail("GetObjectRetention"); err != nil {
-		return out, err
+		return out, r.failed(ci, err)
 	}
 	zzvf.Havoc(&out, "be.GetObjectRetention")
 	return out, nil
 }
 
 func (r *Recorder) PutObjectLegalHold(a0 context.Context, a1 string, a2 string, a3 string, a4 bool) error {
-	r.rec("PutObjectLegalHold", a1, a2, a3, a4)
+	ci := r.rec("PutObjectLegalHold", a1, a2, a3, a4)
 	if h := Hooks["PutObjectLegalHold"]; h != nil {
 		_, err := h(r, []any{a1, a2, a3, a4})
-		return err
+		return r.failed(ci, err)
 	}
-	return fail("PutObjectLegalHold")
+	return r.failed(ci, fail("PutObjectLegalHold"))
 }
 
 func (r *Recorder) GetObjectLegalHold(a0 context.Context, a1 string, a2 string, a3 string) (*bool, error) {
-	r.rec("GetObjectLegalHold", a1, a2, a3)
+	ci := r.rec("GetObjectLegalHold", a1, a2, a3)
 	var out *bool
 	if h := Hooks["GetObjectLegalHold"]; h != nil {
 		v, err := h(r, []any{a1, a2, a3})
 		if err != nil {
-			return out, err
+			return out, r.failed(ci, err)
 		}
 		return v.(*bool), nil
 	}
 	if err := fail("GetObjectLegalHold"); err != nil {
-		return out, err
+		return out, r.failed(ci, err)
 	}
 	zzvf.Havoc(&out, "be.GetObjectLegalHold")
 	return out, nil
 }
 
 func (r *Recorder) ChangeBucketOwner(a0 context.Context, a1 string, a2 []byte) error {
-	r.rec("ChangeBucketOwner", a1, a2)
+	ci := r.rec("ChangeBucketOwner", a1, a2)
 	if h := Hooks["ChangeBucketOwner"]; h != nil {
 		_, err := h(r, []any{a1, a2})
-		return err
+		return r.failed(ci, err)
 	}
-	return fail("ChangeBucketOwner")
+	return r.failed(ci, fail("ChangeBucketOwner"))
 }
 
 func (r *Recorder) ListBucketsAndOwners(a0 context.Context) ([]s3response.Bucket, error) {
-	r.rec("ListBucketsAndOwners")
+	ci := r.rec("ListBucketsAndOwners")
 	var out []s3response.Bucket
 	if h := Hooks["ListBucketsAndOwners"]; h != nil {
 		v, err := h(r, []any{})
 		if err != nil {
-			return out, err
+			return out, r.failed(ci, err)
 		}
 		return v.([]s3response.Bucket), nil
 	}
 	if err := fail("ListBucketsAndOwners"); err != nil {
-		return out, err
+		return out, r.failed(ci, err)
 	}
 	zzvf.Havoc(&out, "be.ListBucketsAndOwners")
 	return out, nil
 }
 
 func (r *Recorder) SelectObjectContent(ctx context.Context, input *s3.SelectObjectContentInput) func(w *bufio.Writer) {
-	r.rec("SelectObjectContent", input)
+	_ = r.rec("SelectObjectContent", input)
 	return func(w *bufio.Writer) {}
 }
